@@ -2,9 +2,12 @@
 (GRAPH engine: every proposal at every node of every explored state)."""
 import os
 
+import re
+
 from .. import common, graph, seeds, sexp
 
 PROP = 'C15'
+NUMERIC = re.compile(r'^[0-9]+(\.[0-9]+)?$')
 _scratch = None
 
 
@@ -137,6 +140,25 @@ def judge(part, state_list, state_syms, state_ids, state_keys, p, depth,
         return
     if any(l == '' for l in leaves(tree)):
         fail('empty-leaf', 'result contains a leaf with empty text')
+        return
+    # a leaf that starts with a digit is read as a numeral / decimal; if
+    # more follows, a conforming reader sees two tokens (1b = 1 b).  Only
+    # leaves the proposal brought in are judged.
+    old = set(leaves(state_list))
+    glued = next((l for l in leaves(tree)
+                  if l[0].isdigit() and l not in old and
+                  not NUMERIC.match(l)), None)
+    if glued is not None:
+        # KF-C15-4: ArithmeticSimplifyConstant drops the last digit of d.f
+        # also when it is the only fractional digit (1.5 -> "1.")
+        kf = None
+        if name == 'ArithmeticSimplifyConstant' and \
+                re.match(r'^[0-9]+\.$', glued) and \
+                any(l.startswith(glued) and NUMERIC.match(l) and
+                    len(l) == len(glued) + 1 for l in old):
+            kf = 'arith-decimal-trailing-dot'
+        fail('leaf-is-not-a-single-token', f'leaf {glued!r} is a numeral '
+             'followed by further characters', kf=kf)
         return
     want = sexp.norm(tree)
     from ddsmt import nodeio
